@@ -261,3 +261,25 @@ def stimuli(rng, sigs, n):
     for _ in range(n):
         out.append([rand_value(rng, w, sg) for w, sg in sigs])
     return out
+
+
+def sig_ids(t):
+    """all signal indices occurring anywhere in the term"""
+    k = t[0]
+    if k == "c":
+        return []
+    if k == "s":
+        return [t[1]]
+    if k == "o1":
+        return sig_ids(t[2])
+    if k == "o2":
+        return sig_ids(t[2]) + sig_ids(t[3])
+    if k == "sl":
+        return sig_ids(t[1])
+    if k == "pt":
+        return sig_ids(t[1]) + sig_ids(t[2])
+    if k == "cat":
+        return [i for p in t[1] for i in sig_ids(p)]
+    if k == "sw":
+        return sig_ids(t[1]) + [i for _, e in t[2] for i in sig_ids(e)]
+    raise ValueError(k)
